@@ -83,7 +83,7 @@ func runCRDT(prop string, args []string) int {
 	r := rep.New(prop, "model_checking")
 	tier := rep.Tier()
 	variants := 3
-	budget := 8 * time.Minute
+	budget := 16 * time.Minute
 	if tier == "thorough" {
 		variants = 8
 		budget = 35 * time.Minute
@@ -94,10 +94,11 @@ func runCRDT(prop string, args []string) int {
 	var perScenario []map[string]any
 	classes := map[string]crdtx.Viol{}
 	scs := crdtScenarios(tier)
-	for _, sc := range scs {
-		// every scenario gets an equal share of the time budget (a scenario that ends early does not
-		// pass its share on: the cost of a run stays predictable)
-		deadline := time.Now().Add(budget / time.Duration(len(scs)))
+	end := time.Now().Add(budget)
+	for si, sc := range scs {
+		// every scenario gets an equal share of what is left of the time budget (a scenario that ends
+		// early passes the rest of its share on)
+		deadline := time.Now().Add(time.Until(end) / time.Duration(len(scs)-si))
 		for v := 0; v < variants; v++ {
 			cfg := sc.Cfg
 			cfg.Variant = v + rep.Seed()*1000
